@@ -37,6 +37,9 @@ fn main() {
     if let Some(sz) = arg(&args, "--segsize").and_then(|s| s.parse::<u64>().ok()) {
         nomt::verif_hook::set_rollback_segment_size(sz);
     }
+    if args.iter().any(|a| a == "--fat") {
+        db::FAT.store(true, std::sync::atomic::Ordering::Relaxed);
+    }
     match cmd.as_str() {
         "crash-child" => std::process::exit(crash::child(&args)),
         "dump" => std::process::exit(crash::dump(&args)),
@@ -101,6 +104,7 @@ fn main() {
             let focus = arg(&args, "--focus").unwrap_or_default();
             image::scenario_script(&focus, &mut sink, &outdir)
         }
+        "image-range-sweep" => image::scenario_range_sweep(seed, cases, &mut sink, &outdir),
         "image-branch-ops" => image::scenario_branch_ops(seed, cases, &mut sink, &outdir),
         "image-prefix-tail" => image::scenario_prefix_tail(&mut sink, &outdir),
         "image-prefix-shrink" => image::scenario_prefix_shrink(&mut sink, &outdir),
